@@ -10,7 +10,7 @@ import time
 
 VERIF = os.path.dirname(os.path.dirname(os.path.abspath(__file__)))
 REPO = os.environ.get("VERIF_REPO", "/repo")
-CACHE = os.path.join(VERIF, ".cache")
+CACHE = os.environ.get("VERIF_CACHE") or os.path.join(VERIF, ".cache")
 # reach measurement (tools/coverage.sh): VERIF_COVERAGE=<dir> builds shell and ksim with source-based coverage
 # instrumentation (nightly toolchain: its llvm-tools read the profiles) into separate target directories
 COVERAGE = os.environ.get("VERIF_COVERAGE") or None
